@@ -13,10 +13,103 @@ import (
 )
 
 type Replay struct {
-	Kind    string            `json:"kind"` // table | transit
-	Name    string            `json:"name"`
-	Table   []rh.TOp          `json:"table,omitempty"`
-	Transit *rh.TransitScript `json:"transit,omitempty"`
+	Kind     string            `json:"kind"` // table | transit | exit | forward
+	Name     string            `json:"name"`
+	Table    []rh.TOp          `json:"table,omitempty"`
+	Transit  *rh.TransitScript `json:"transit,omitempty"`
+	Book     []rh.BOp          `json:"book,omitempty"`
+	MaxConns int               `json:"max_conns,omitempty"`
+}
+
+// ---------------------------------------------------------------------------
+// monitor, exit / port-forward endpoint: every tunnel (peer, id) has its own
+// destination connection (serial); a frame of one tunnel must reach, close or
+// reset that connection only, and the destination must receive exactly the
+// plaintext its own peer sent.
+
+func monitorBook(c *vh.Ctx, rp Replay, obs []rh.BObs) {
+	type tun struct {
+		peer int
+		id   uint64
+	}
+	owner := map[int]tun{} // serial -> tunnel
+	alive := map[int]bool{}
+	collided := false
+	serial := 0
+	prevClosed := map[int]bool{}
+	find := func(peer int, id uint64) int {
+		for s, t := range owner {
+			if alive[s] && t.peer == peer && t.id == id {
+				return s
+			}
+		}
+		return -1
+	}
+	for i, op := range rp.Book {
+		o := obs[i]
+		if o.Note != "" {
+			c.Fail("harness-timeout", rp.Name+": "+o.Note, rp)
+		}
+		newClosed := []int{}
+		for _, s := range o.Closed {
+			if !prevClosed[s] {
+				newClosed = append(newClosed, s)
+				prevClosed[s] = true
+			}
+		}
+		sig := rp.Kind + "-cross-tunnel-effect"
+		if collided {
+			sig = rp.Kind + "-bare-id-collision"
+		}
+		own := -1
+		switch op.Op {
+		case "open":
+			if o.Res == 0 {
+				for s, t := range owner {
+					if alive[s] && t.id == op.ID && t.peer != op.Peer {
+						collided = true
+						sig = rp.Kind + "-bare-id-collision"
+					}
+				}
+				owner[serial] = tun{op.Peer, op.ID}
+				alive[serial] = true
+				own = serial
+				serial++
+			}
+		case "close", "reset":
+			own = find(op.Peer, op.ID)
+		case "data":
+			own = op.Serial
+			want := [][2]uint64{}
+			if op.Serial < serial && alive[op.Serial] {
+				want = append(want, [2]uint64{uint64(op.Serial), op.Tag})
+			}
+			if fmt.Sprint(o.DestGot) != fmt.Sprint(want) {
+				c.Fail(sig, fmt.Sprintf("%s: step %d: peer %d sent %d on its stream %d (destination connection %d); destinations received %v", rp.Name, i, op.Peer, op.Tag, op.ID, op.Serial, o.DestGot), rp)
+			}
+		case "destclose":
+			own = op.Serial
+		}
+		for _, s := range newClosed {
+			if s != own {
+				c.Fail(sig, fmt.Sprintf("%s: step %d (%+v) concerns destination connection %d but the handler closed connection %d of tunnel %+v", rp.Name, i, op, own, s, owner[s]), rp)
+			}
+		}
+		for _, w := range o.Written {
+			if w.Kind == "close" && own >= 0 && (owner[own].peer != w.Peer || owner[own].id != w.ID) {
+				c.Fail(sig, fmt.Sprintf("%s: step %d (%+v): STREAM_CLOSE written to peer %d stream %d, which is not the tunnel concerned", rp.Name, i, op, w.Peer, w.ID), rp)
+			}
+		}
+		switch op.Op {
+		case "close", "reset", "destclose":
+			if own >= 0 {
+				alive[own] = false
+			}
+		}
+		for _, s := range newClosed {
+			alive[s] = false
+		}
+	}
 }
 
 // ---------------------------------------------------------------------------
@@ -73,8 +166,9 @@ func monitorTable(c *vh.Ctx, rp Replay, res []rh.TRes) {
 			}
 			remove(op.E)
 		case "lookupboth":
-			// for every peer that owns exactly one live tunnel with this id on its side
-			for peer := 1; peer <= 3; peer++ {
+			// the frame's source peer owns at most one live tunnel with this id on its side
+			{
+				peer := op.Peer
 				var want []rh.Entry
 				for _, e := range live {
 					if (e.UpPeer == peer && e.UpID == op.ID) || (e.DownPeer == peer && e.DownID == op.ID) {
@@ -82,7 +176,7 @@ func monitorTable(c *vh.Ctx, rp Replay, res []rh.TRes) {
 					}
 				}
 				if len(want) != 1 || ambiguous[want[0]] {
-					continue
+					break
 				}
 				var got *rh.Entry
 				if r := res[i].E1; r != nil && r.UpPeer == peer {
@@ -236,6 +330,13 @@ func monitorTransit(c *vh.Ctx, rp Replay, obs []rh.AObs) {
 					break
 				}
 				idx := find(f.Fam, k)
+				if len(idx) > 1 {
+					// (peer, id) is an end of two tunnels: the peer used an id of the other
+					// end's parity class (outside C38); which tunnel the frame means is undefined
+					for _, j := range idx {
+						live[j].ambig = true
+					}
+				}
 				if len(idx) == 1 && !live[idx[0]].ambig {
 					t := live[idx[0]]
 					fromUp := t.up == k
@@ -308,12 +409,14 @@ func witnesses() []Replay {
 		{Kind: "table", Name: "two-upstream-peers-same-id", Table: []rh.TOp{
 			{Op: "insert", E: rh.Entry{UpPeer: 1, UpID: 1, DownPeer: 3, DownID: 1}},
 			{Op: "insert", E: rh.Entry{UpPeer: 2, UpID: 1, DownPeer: 3, DownID: 3}},
-			{Op: "lookupboth", ID: 1}, {Op: "popmatching", ID: 1, Peer: 1}, {Op: "popmatching", ID: 1, Peer: 2},
+			{Op: "lookupboth", ID: 1, Peer: 1}, {Op: "lookupboth", ID: 1, Peer: 2}, {Op: "lookupboth", ID: 1, Peer: 3}, {Op: "lookupboth", ID: 3, Peer: 3},
+			{Op: "popmatching", ID: 1, Peer: 1}, {Op: "popmatching", ID: 1, Peer: 2},
 			{Op: "deletebypeer", Peer: 1}, {Op: "deletebypeer", Peer: 3}}},
 		{Kind: "table", Name: "two-downstream-peers-same-id", Table: []rh.TOp{
 			{Op: "insert", E: rh.Entry{UpPeer: 1, UpID: 1, DownPeer: 2, DownID: 1}},
 			{Op: "insert", E: rh.Entry{UpPeer: 1, UpID: 3, DownPeer: 3, DownID: 1}},
-			{Op: "lookupboth", ID: 1}, {Op: "lookupdown", ID: 1}, {Op: "popdown", ID: 1, Peer: 2}, {Op: "popdown", ID: 1, Peer: 3}}},
+			{Op: "lookupboth", ID: 1, Peer: 2}, {Op: "lookupboth", ID: 1, Peer: 3}, {Op: "lookupdownfrom", ID: 1, Peer: 2}, {Op: "lookupdownfrom", ID: 1, Peer: 3},
+			{Op: "popdown", ID: 1, Peer: 2}, {Op: "popdown", ID: 1, Peer: 3}}},
 		{Kind: "transit", Name: "two-ingress-one-transit-tcp", Transit: two(rh.TCP)},
 		{Kind: "transit", Name: "two-ingress-one-transit-udp", Transit: two(rh.UDP)},
 		{Kind: "transit", Name: "two-ingress-one-transit-icmp", Transit: two(rh.ICMP)},
@@ -321,6 +424,18 @@ func witnesses() []Replay {
 			frame(1, rh.UDP, rh.KOpen, 3, []int{3}, 31), frame(1, rh.ICMP, rh.KOpen, 3, []int{4}, 32),
 			rh.Event{Ev: "disconnect", Peer: 1}, rh.Event{Ev: "connect", Peer: 1},
 			frame(1, rh.UDP, rh.KData, 3, nil, 33), frame(1, rh.ICMP, rh.KClose, 3, nil, 0))}},
+		{Kind: "exit", Name: "exit-two-peers-same-id-close", MaxConns: 4, Book: []rh.BOp{
+			{Op: "open", Peer: 1, ID: 1}, {Op: "open", Peer: 2, ID: 1}, {Op: "data", Peer: 2, ID: 1, Serial: 1, Tag: 71},
+			{Op: "close", Peer: 1, ID: 1}, {Op: "destclose", Serial: 0}}},
+		{Kind: "exit", Name: "exit-two-peers-same-id-data", MaxConns: 4, Book: []rh.BOp{
+			{Op: "open", Peer: 1, ID: 1}, {Op: "open", Peer: 2, ID: 1}, {Op: "data", Peer: 1, ID: 1, Serial: 0, Tag: 72},
+			{Op: "destclose", Serial: 0}}},
+		{Kind: "forward", Name: "forward-two-peers-same-id", MaxConns: 4, Book: []rh.BOp{
+			{Op: "open", Peer: 1, ID: 1}, {Op: "open", Peer: 2, ID: 1}, {Op: "data", Peer: 1, ID: 1, Serial: 0, Tag: 73},
+			{Op: "open", Peer: 1, ID: 3}, {Op: "open", Peer: 2, ID: 3}, {Op: "destclose", Serial: 2}, {Op: "close", Peer: 2, ID: 3}}},
+		{Kind: "exit", Name: "exit-distinct-ids", MaxConns: 4, Book: []rh.BOp{
+			{Op: "open", Peer: 1, ID: 1}, {Op: "open", Peer: 2, ID: 3}, {Op: "data", Peer: 1, ID: 1, Serial: 0, Tag: 74}, {Op: "data", Peer: 2, ID: 3, Serial: 1, Tag: 75},
+			{Op: "close", Peer: 1, ID: 1}, {Op: "data", Peer: 2, ID: 3, Serial: 1, Tag: 76}, {Op: "destclose", Serial: 1}}},
 		{Kind: "transit", Name: "stale-frame-hits-own-stream", Transit: &rh.TransitScript{Me: rh.TransitMe, Locals: []uint64{1, 2}, Events: append(rh.TransitPrologue(),
 			frame(1, rh.TCP, rh.KData, 2, nil, 5), frame(2, rh.TCP, rh.KClose, 1, nil, 0), frame(1, rh.TCP, rh.KReset, 2, nil, 3))}},
 	}
@@ -333,9 +448,31 @@ func main() {
 		"result of every operation and both indices compared with Model/Relay.v; (b) event script (frames of the TCP/UDP/ICMP families from four harness-played " +
 		"neighbours, connect, disconnect, failing sends) on a real agent.Agent acting as transit, every emitted frame, the three relay tables and the agent's own " +
 		"streams compared with the model after every event; non-trivial = at least two live entries/tunnels at some point; distinct = distinct scripts"
-	var coq []string
+	var coq, bookCoq []string
+	var books []Replay
+	runBook := func(rp Replay) {
+		var obs []rh.BObs
+		var err error
+		if p := vh.Recover(func() { obs, err = rh.RunBook(rp.Kind, rp.MaxConns, rp.Book) }); p != "" || err != nil {
+			c.Fail("panic", fmt.Sprintf("%s: %s %v", rp.Name, p, err), rp)
+			return
+		}
+		nOpen := 0
+		for _, op := range rp.Book {
+			c.Count(rp.Kind + "-op:" + op.Op)
+			if op.Op == "open" {
+				nOpen++
+			}
+		}
+		c.Case(fmt.Sprint(rp.Kind, rp.MaxConns, rp.Book), nOpen >= 2, rp)
+		monitorBook(c, rp, obs)
+		bookCoq = append(bookCoq, rh.CoqBCase(rp.MaxConns, rp.Book, obs))
+	}
 	runOne := func(rp Replay) {
 		switch rp.Kind {
+		case "exit", "forward":
+			// run after all relay cases: they use the second mismatch list
+			books = append(books, rp)
 		case "table":
 			var res []rh.TRes
 			if p := vh.Recover(func() { res = rh.RunTable(rp.Table) }); p != "" {
@@ -394,19 +531,29 @@ func main() {
 			runOne(w)
 		}
 		root := vh.NewRand(int64(c.Rand.U64()))
-		for i, n := 0, c.N(150, 4000); i < n; i++ {
+		for i, n := 0, c.N(90, 4000); i < n; i++ {
 			r := root.Fork()
 			runOne(Replay{Kind: "table", Name: fmt.Sprintf("table-%d", i), Table: rh.GenTable(r, 4+r.Intn(14))})
 		}
-		for i, n := 0, c.N(120, 3000); i < n; i++ {
+		for i, n := 0, c.N(70, 3000); i < n; i++ {
 			r := root.Fork()
 			sc := rh.GenTransit(r, 6+r.Intn(24))
 			runOne(Replay{Kind: "transit", Name: fmt.Sprintf("transit-%d", i), Transit: &sc})
 		}
+		for i, n := 0, c.N(10, 400); i < n; i++ {
+			r := root.Fork()
+			kind := []string{"exit", "forward"}[i%2]
+			runOne(Replay{Kind: kind, Name: fmt.Sprintf("%s-%d", kind, i), MaxConns: 6, Book: rh.GenBook(r, 4+r.Intn(10), 5)})
+		}
+	}
+	for _, rp := range books {
+		runBook(rp)
 	}
 	var sb strings.Builder
-	sb.WriteString("From Coq Require Import List NArith Bool.\nFrom MM Require Import Model.Relay.\nImport ListNotations.\nLocal Open Scope N_scope.\n")
+	sb.WriteString("From Coq Require Import List NArith ZArith Bool.\nFrom MM Require Import Model.Relay Model.ExitBook.\nImport ListNotations.\nLocal Open Scope N_scope.\n")
 	sb.WriteString("Definition cases : list case := [\n" + strings.Join(coq, ";\n") + "].\n")
+	sb.WriteString("Definition bcases : list bcase := [\n" + strings.Join(bookCoq, ";\n") + "].\n")
 	sb.WriteString("Definition M := Eval vm_compute in mismatches cases.\nPrint M.\n")
+	sb.WriteString(fmt.Sprintf("Definition MB := Eval vm_compute in bmismatches_from %s bcases.\nPrint MB.\n", vh.CoqN(uint64(len(coq)))))
 	c.WriteCasesV("cases.v", sb.String())
 }
